@@ -103,7 +103,10 @@ func runC09(c *Ctx) {
 		names = append(names, n)
 	}
 	sort.Strings(names)
-	anchorFiles := map[string]bool{"code.go": true, "character.go": true, "pkg/cl/control.go": true, "pkg/cl/format.go": true, "runereader.go": true}
+	anchorFiles := map[string]bool{"code.go": true, "character.go": true, "pkg/cl/control.go": true, "pkg/cl/format.go": true, "runereader.go": true,
+		// the evaluator core every built-in goes through: name resolution, scopes, function objects, lambda binding
+		"scope.go": true, "function.go": true, "lambda.go": true, "symbol.go": true, "list.go": true, "values.go": true, "dynamic.go": true, "hash-table.go": true, "argcounterror.go": true}
+	rootAll := c.Tier == "thorough" || c.WriteBase
 	for _, n := range names {
 		fn := c.P.Funcs[n]
 		if pk[pkgShort(fn)] && isCallMethod(fn) {
@@ -112,7 +115,7 @@ func runC09(c *Ctx) {
 		}
 		if fn.Pos().IsValid() && fn.Parent() == nil {
 			file := strings.TrimPrefix(c.P.SSA.Fset.Position(fn.Pos()).Filename, repoDir+"/")
-			if anchorFiles[file] && len(fn.Blocks) > 0 {
+			if len(fn.Blocks) > 0 && (anchorFiles[file] || (rootAll && pkgShort(fn) == "slip" && !strings.HasSuffix(file, "_test.go") && !strings.Contains(fn.Name(), "init"))) {
 				roots = append(roots, fn)
 			}
 		}
